@@ -9,12 +9,20 @@ args/result type:
   * direct oracle (no model): the bytes decoded by a schema-less reader (vh_lab) must carry exactly the declared
     field ids / wire types / values: required and default always, optional iff set, one field for a union; a
     round trip must reproduce the value; unknown fields are skipped; missing required is INVALID_DATA;
+  * compact protocol: the bytes written by generated Write are compared byte-exact with the Coq model of
+    TCompactProtocol (Judge/JThriftCompact.v over Model/ThriftCompact.v: zigzag varints, delta / long field headers,
+    bools folded into headers, container headers, little-endian doubles, the last-field-id stack), and generated
+    Read is fed bytes of an independent Python compact writer (canonical, and liberal-but-valid encodings: long-form
+    headers where the short form fits, varint-sized container headers for short containers, over-long varints,
+    STOP bytes with a non-zero high nibble, unknown fields of every type, missing required fields, multi-field
+    unions, truncation); value / error class / unread count are replayed on the model;
   * compact and JSON: the same values through generated Write are decoded schema-lessly and compared with the
     declared content; generated Read is fed bytes built by the schema-less writer and compared with the
-    binary result (differential).
+    binary result (differential). JSON has no Coq specification and stays differential.
 Known-defect probes (hand-written IDL) pin the constructs the Go generator cannot compile.
 """
 import base64
+import collections
 import struct
 
 import lab
@@ -60,11 +68,80 @@ def go_eq(p, t, a, b):
     return a == b
 
 
+# Known finding C02-go-default-from-constant (the C03 finding of the same name, seen from the codec): an optional
+# field whose default names a constant of a typedef'd type.  The Go generator emits such a constant as a package
+# variable assigned in init(), and `var <S>_<F>_DEFAULT T = <Const>` as a package-level initialiser that runs before
+# init(): IsSet<F>() compares with Go's zero value instead of the declared default.  INIT_CONST_QUIRK = True makes
+# is_set follow the emitted code; it is used only to recognise that defect precisely (everything else still fails).
+INIT_CONST_QUIRK = False
+KNOWN_INIT_CONST = {"class": "optional_default_from_init_constant"}
+
+
+def init_const_default(p, f):
+    d = f.get("default")
+    if f["mod"] != "optional" or not d or not d.get("const"):
+        return False
+    cf, cn = d["const"]
+    c = [x for x in p["files"][cf]["consts"] if x["name"] == cn]
+    if not c or c[0]["type"][0] != "ref":
+        return False         # spelled as a base type: a Go const, no init order problem
+    return L.lookup(p, c[0]["type"][1], c[0]["type"][2])[0] == "typedef"
+
+
+def has_init_const_default(p, sdef, seen=None):
+    """does the struct-like, or one reachable from it, have such a field"""
+    seen = set() if seen is None else seen
+    if id(sdef) in seen:
+        return False
+    seen.add(id(sdef))
+    for f in sdef["fields"]:
+        if init_const_default(p, f):
+            return True
+        todo = [f["type"]]
+        while todo:
+            t = L.resolve(p, todo.pop())
+            if t[0] == "ref":
+                k, d = L.lookup(p, t[1], t[2])
+                if k == "struct" and has_init_const_default(p, d, seen):
+                    return True
+            else:
+                todo += [x for x in t[1:] if isinstance(x, list)]
+    return False
+
+
+def quirk_union_count_off(p, t, v):
+    """under the emitted IsSet of the known finding: does v hold a union whose CountSetFields is not 1"""
+    global INIT_CONST_QUIRK
+    if v is None:
+        return False
+    r = L.resolve(p, t)
+    if r[0] == "ref":
+        k, d = L.lookup(p, r[1], r[2])
+        if k == "enum":
+            return False
+        if d["kind"] == "union":
+            INIT_CONST_QUIRK = True
+            try:
+                n = sum(1 for f in d["fields"] if is_set(p, f, v.get(f["id"])))
+            finally:
+                INIT_CONST_QUIRK = False
+            if n != 1:
+                return True
+        return any(quirk_union_count_off(p, f["type"], v.get(f["id"])) for f in d["fields"])
+    if r[0] in ("list", "set"):
+        return any(quirk_union_count_off(p, r[1], x) for x in v)
+    if r[0] == "map":
+        return any(quirk_union_count_off(p, r[1], k) or quirk_union_count_off(p, r[2], x) for k, x in v)
+    return False
+
+
 def is_set(p, f, v):
     """IsSet as the IDL semantics of the emitted representation define it."""
     hk = L.head_kind(p, f["type"])
     gk = L.go_kind(p, f)
     d = f.get("default")
+    if INIT_CONST_QUIRK and init_const_default(p, f):
+        return not go_eq(p, f["type"], v, L.zero_value(p, f["type"]))
     if hk == "base:binary" and d is not None:
         return not go_eq(p, f["type"], v, d["value"])
     if gk == "V" and d is not None:
@@ -268,12 +345,95 @@ def tbin_value(wt, x):
         return struct.pack(">i", len(b)) + b
     if wt == 12:
         return tbin(x)
+    if wt == 16:
+        return bytes.fromhex(x)
     if wt in (14, 15):
         et, vals = x["e" if wt == 14 else "l"]
         return struct.pack(">bi", et, len(vals)) + b"".join(tbin_value(et, v) for v in vals)
     if wt == 13:
         kt, vt, vals = x["m"]
         return struct.pack(">bbi", kt, vt, len(vals)) + b"".join(tbin_value(kt, k) + tbin_value(vt, v) for k, v in vals)
+    raise ValueError(wt)
+
+
+# Reference TCompact writer for schema-less trees (independent of Apache Thrift and of the Coq model).
+# lib = None: the canonical encoding; lib = a PRNG: liberal but valid choices a foreign writer may make.
+CT = {2: 1, 3: 3, 6: 4, 8: 5, 10: 6, 4: 7, 11: 8, 15: 9, 14: 10, 13: 11, 12: 12, 16: 13}
+
+
+def uvarint(u, lib=None):
+    groups = []
+    while True:
+        groups.append(u & 0x7F)
+        u >>= 7
+        if not u:
+            break
+    if lib is not None and lib.random() < 0.15:
+        groups += [0] * lib.randrange(1, 4)          # over-long: continuation groups of zero bits
+    return bytes([g | 0x80 for g in groups[:-1]] + [groups[-1]])
+
+
+def zigzag(n, bits):
+    return ((n << 1) ^ (n >> (bits - 1))) & ((1 << bits) - 1)
+
+
+def tcomp(tree, lib=None, liar=None):
+    """liar = a PRNG: i16 / i32 / i64 field headers may name another member of that family (all three are one
+    zigzag varint on the wire, so the stream stays aligned); generated Read never compares the header type of a
+    declared field and thrift.Skip skips one varint for each of them"""
+    out = bytearray()
+    last = 0
+    for fid, wt, x in tree["s"]:
+        ct = (1 if x else 2) if wt == 2 else CT[wt]
+        if liar is not None and wt in (6, 8, 10) and liar.random() < 0.5:
+            ct = liar.choice([4, 5, 6])
+        d = fid - last
+        if lib is not None and d < 0 and 0 < d % 65536 <= 15:
+            out.append(((d % 65536) << 4) | ct)      # the reader adds the delta in int16: 32767 + 1 = -32768
+        elif 0 < d <= 15 and not (lib is not None and lib.random() < 0.25):
+            out.append((d << 4) | ct)
+        else:
+            out.append(ct)
+            out += uvarint(zigzag(fid, 32), lib)
+        if wt != 2:
+            out += tcomp_value(wt, x, lib, liar)
+        last = fid
+    out.append((lib.randrange(1, 16) << 4) if lib is not None and lib.random() < 0.2 else 0)
+    return bytes(out)
+
+
+def tcomp_value(wt, x, lib=None, liar=None):
+    if wt == 2:
+        return b"\x01" if x else b"\x02"
+    if wt == 3:
+        return struct.pack(">b", x)
+    if wt in (6, 8):
+        return uvarint(zigzag(x, 32), lib)
+    if wt == 10:
+        return uvarint(zigzag(int(x), 64), lib)
+    if wt == 4:
+        return bytes.fromhex(x)[::-1]
+    if wt == 11:
+        b = bytes.fromhex(x["bin"] if isinstance(x, dict) else x)
+        return uvarint(len(b), lib) + b
+    if wt == 12:
+        return tcomp(x, lib, liar)
+    if wt == 16:
+        return bytes.fromhex(x)
+    if wt in (14, 15):
+        et, vals = x["e" if wt == 14 else "l"]
+        n = len(vals)
+        if n <= 14 and not (lib is not None and lib.random() < 0.25):
+            hdr = bytes([(n << 4) | CT[et]])
+        else:
+            hdr = bytes([0xF0 | CT[et]]) + uvarint(n, lib)
+        return hdr + b"".join(tcomp_value(et, v, lib, liar) for v in vals)
+    if wt == 13:
+        kt, vt, vals = x["m"]
+        if not vals:
+            return b"\x00"
+        return uvarint(len(vals), lib) + bytes([(CT[kt] << 4) | CT[vt]]) + \
+            b"".join(tcomp_value(kt, k, lib, liar) + tcomp_value(vt, v, lib, liar) for k, v in vals)
     raise ValueError(wt)
 
 
@@ -529,8 +689,16 @@ def mutate_tree(rng, p, sdef, tree):
                 [fid, 15, {"l": [6, [1, 2, 3]]}], [fid, 14, {"e": [11, ["61", ""]]}],
                 [fid, 13, {"m": [8, 12, [[1, {"s": [[1, 3, 5], [9, 11, "7a"]]}]]]}],
                 [fid, 12, {"s": [[1, 12, {"s": [[2, 15, {"l": [12, [{"s": []}, {"s": [[1, 2, False]]}]]}]]}]]}],
-                [fid, 12, {"s": []}], [fid, 13, {"m": [11, 15, []]}], [fid, 3, -128], [fid, 6, 32767]])
+                [fid, 12, {"s": []}], [fid, 13, {"m": [11, 15, []]}], [fid, 3, -128], [fid, 6, 32767],
+                [fid, 16, "00112233445566778899aabbccddeeff"], [fid, 2, False],
+                [fid, 15, {"l": [2, [True, False, True] * rng.randrange(1, 8)]}],
+                [fid, 12, {"s": [[1, 2, True], [2, 2, False], [40, 2, True], [41, 15, {"l": [2, [False, True]]}]]}]])
             fields.insert(rng.randrange(0, len(fields) + 1), extra)
+        if rng.random() < 0.15 and 32767 not in declared:
+            # ids at the edge of int16: under compact a short-form header after 32767 wraps to a negative id
+            at = rng.randrange(0, len(fields) + 1)
+            fields[at:at] = [[32767, 8, 7], [-32768 + rng.randrange(0, 15), rng.choice([2, 8]), 1]]
+            info["wrap"] = True
     elif kind == "drop_required":
         req = [f["id"] for f in sdef["fields"] if f["mod"] == "required"]
         if not req:
@@ -572,11 +740,52 @@ def mutate_tree(rng, p, sdef, tree):
     return {"s": fields}, info
 
 
+def stretch_value(rng, p, sdef, v):
+    """a copy of v with one container field grown beyond 14 elements (compact: the header form with a varint size)
+    or one string/binary field beyond 127 bytes (two-byte length varint); None if the type has no such field"""
+    if sdef["kind"] == "union":
+        return None
+    cands = []
+    for f in sdef["fields"]:
+        hk = L.head_kind(p, f["type"])
+        if hk in ("list", "set", "map", "base:string", "base:binary"):
+            cands.append(f)
+    if not cands:
+        return None
+    f = rng.choice(cands)
+    r = L.resolve(p, f["type"])
+    out = dict(v)
+    if r[0] == "string":
+        out[f["id"]] = "".join(rng.choice("abcXYZ019 _-") for _ in range(rng.randrange(128, 400)))
+        return out
+    if r[0] == "binary":
+        out[f["id"]] = bytes(rng.getrandbits(8) for _ in range(rng.randrange(128, 20000 if rng.random() < 0.2 else 400)))
+        return out
+    if L._empty_struct(p, r[1]):
+        return None
+    n = rng.randrange(15, 40)
+    items, seen = [], set()
+    for _ in range(n * 3):
+        if len(items) >= n:
+            break
+        if r[0] == "list":
+            items.append(L.gen_value(rng, p, r[1], 3))
+            continue
+        key = L.gen_value(rng, p, r[1], 3, as_key=True)
+        kk = L.key_of(key)
+        if kk in seen and L.head_kind(p, r[1]) != "struct":
+            continue
+        seen.add(kk)
+        items.append(key if r[0] == "set" else [key, L.gen_value(rng, p, r[2], 3)])
+    out[f["id"]] = items
+    return out
+
+
 def struct_type(fn, sdef):
     return ["ref", fn, sdef["name"]]
 
 
-def run_program(ctx, prog, lab_id, gen_opts, n_values, stats, judge_cases, judge_meta):
+def run_program(ctx, prog, lab_id, gen_opts, n_values, stats, judge_cases, judge_meta, cjudge=None):
     rng = ctx.rng
     lb = lab.Lab(prog, lab_id=lab_id, gen_opts=gen_opts)
     try:
@@ -587,7 +796,7 @@ def run_program(ctx, prog, lab_id, gen_opts, n_values, stats, judge_cases, judge
         lb.remove()
         return
     try:
-        _run_program(ctx, prog, lb, gen_opts, n_values, stats, judge_cases, judge_meta)
+        _run_program(ctx, prog, lb, gen_opts, n_values, stats, judge_cases, judge_meta, cjudge)
     finally:
         lb.remove()
 
@@ -602,7 +811,8 @@ def _method_defs(prog, fn):
     return out
 
 
-def _run_program(ctx, prog, lb, gen_opts, n_values, stats, judge_cases, judge_meta):
+def _run_program(ctx, prog, lb, gen_opts, n_values, stats, judge_cases, judge_meta, cjudge=None):
+    global INIT_CONST_QUIRK
     rng = ctx.rng
     p = prog
     keys = lb.struct_keys()
@@ -629,6 +839,11 @@ def _run_program(ctx, prog, lb, gen_opts, n_values, stats, judge_cases, judge_me
             continue
         for i in range(n_values):
             plan.append((k, fn, s, L.gen_struct_value(rng, p, s)))
+        if n_values and rng.random() < 0.6:
+            sv = stretch_value(rng, p, s, L.gen_struct_value(rng, p, s))
+            if sv is not None:
+                plan.append((k, fn, s, sv))
+                stats["stretched_values"] += 1
         if s["kind"] == "union" and s["fields"]:
             # values the emitted type can hold but the IDL forbids: no field / two fields set (Write must refuse)
             plan.append((k, fn, s, L.new_value(p, s)))
@@ -675,6 +890,7 @@ def _run_program(ctx, prog, lb, gen_opts, n_values, stats, judge_cases, judge_me
     # ---- phase 2: reads: bytes from the independent writers
     rreqs, rmeta = [], []
     breq, bmeta = [], []
+    diff_index = {}
     for i, (k, fn, s, v) in enumerate(plan):
         t = struct_type_of(fn, s, p)
         try:
@@ -691,23 +907,38 @@ def _run_program(ctx, prog, lb, gen_opts, n_values, stats, judge_cases, judge_me
             b = tbin(tr)
             rreqs.append({"op": "read", "type": k, "proto": "binary", "bytes": b.hex()})
             rmeta.append((i, tr, info, b, "binary"))
+            # compact: the same content through the independent Python writer, canonical or liberal-but-valid
+            lib = rng if rng.random() < 0.5 else None
+            cb = tcomp(tr, lib)
+            rreqs.append({"op": "read", "type": k, "proto": "compact", "bytes": cb.hex()})
+            rmeta.append((i, tr, dict(info, writer="py-liberal" if lib is not None else "py-canonical"), cb, "compact"))
+            diff_index[len(rreqs) - 1] = len(rreqs) - 2
             if info["mutation"] in ("none", "unknown") and rng.random() < 0.5:
                 pr = rng.choice(["compact", "json"])
                 breq.append({"op": "build", "proto": pr, "tree": tr})
-                bmeta.append((i, tr, info, pr, len(rreqs) - 1))
+                bmeta.append((i, tr, info, pr, len(rreqs) - 2))
+        if rng.random() < 0.3:
+            # header types that lie within the varint family: no oracle claim (not a conforming encoding), the
+            # model says what the generated Read makes of it
+            cb = tcomp(tree, None, rng)
+            rreqs.append({"op": "read", "type": k, "proto": "compact", "bytes": cb.hex()})
+            rmeta.append((i, tree, {"mutation": "liar", "writer": "py-liar"}, cb, "compact"))
         if rng.random() < 0.3:
             b = tbin(tree)
             cut = b[:rng.randrange(0, len(b))]
             rreqs.append({"op": "read", "type": k, "proto": "binary", "bytes": cut.hex()})
             rmeta.append((i, tree, {"mutation": "truncate"}, cut, "binary"))
+            b = tcomp(tree)
+            cut = b[:rng.randrange(0, len(b))]
+            rreqs.append({"op": "read", "type": k, "proto": "compact", "bytes": cut.hex()})
+            rmeta.append((i, tree, {"mutation": "truncate", "writer": "py-canonical"}, cut, "compact"))
     bres = vh_lab(breq) if breq else []
-    diff_index = {}
     for (i, tr, info, pr, ridx), r in zip(bmeta, bres):
         if r.get("code") != 0:
             continue
         k = plan[i][0]
         rreqs.append({"op": "read", "type": k, "proto": pr, "bytes": r["out"]})
-        rmeta.append((i, tr, info, bytes.fromhex(r["out"]), pr))
+        rmeta.append((i, tr, dict(info, writer="apache-schemaless"), bytes.fromhex(r["out"]), pr))
         diff_index[len(rreqs) - 1] = ridx
     rres = lb.run(rreqs)
     if len(rres) != len(rreqs):
@@ -715,26 +946,65 @@ def _run_program(ctx, prog, lb, gen_opts, n_values, stats, judge_cases, judge_me
 
     # ---- direct oracle + judge cases
     per_type = {}
+    per_type_c = {}
     for i, (k, fn, s, v) in enumerate(plan):
         t = struct_type_of(fn, s, p)
         stats["values"] += 1
         rep = {"program": p["id"], "gen_opts": gen_opts, "type": k, "go_value": L.struct_to_wire(p, s, v)}
-        try:
-            ew = expected_struct(p, s, v)
-            want = ("ok", ew)
-        except UnionCount as e:
-            want = ("union", e.args[0])
-        except NilDeref as e:
-            want = ("nil", e.args[0])
+        want = _write_want(p, s, v)
+        known_protos = set()
         for pr in protos:
             r = wres[i][pr]
             stats["write/" + pr] += 1
-            why = None
+            why = _write_why(p, s, t, pr, want, r, trees.get((i, pr)), stats)
+            if why:
+                sig = None
+                if has_init_const_default(p, s):
+                    # the observation is exactly what the emitted IsSet (default read before init()) produces?
+                    INIT_CONST_QUIRK = True
+                    try:
+                        if _write_why(p, s, t, pr, _write_want(p, s, v), r, trees.get((i, pr)), collections.Counter()) is None:
+                            sig = KNOWN_INIT_CONST
+                            known_protos.add(pr)
+                            stats["known_init_const_default/" + pr] += 1
+                    finally:
+                        INIT_CONST_QUIRK = False
+                rr = dict(rep, proto=pr, observed=r, idl=L.render(p))
+                ctx.violation("C02 oracle (Write, %s): %s" % (pr, why), rr, signature=sig)
+        # judge case: binary Write
+        r = wres[i]["binary"]
+        sub = [1, struct_tok(p, s, v), r.get("code", 103), bytes.fromhex(r.get("out", "") or "")]
+        per_type.setdefault(k, []).append((sub, dict(rep, op="write", observed=r,
+                                                     known_sig=KNOWN_INIT_CONST if "binary" in known_protos else None)))
+        # judge case: compact Write (byte-exact against Model/ThriftCompact.v)
+        r = wres[i]["compact"]
+        sub = [1, struct_tok(p, s, v), r.get("code", 103), bytes.fromhex(r.get("out", "") or "")]
+        per_type_c.setdefault(k, []).append((sub, dict(rep, op="write", proto="compact", observed=r,
+                                                       known_sig=KNOWN_INIT_CONST if "compact" in known_protos else None)))
+
+    _read_oracle(ctx, p, plan, gen_opts, stats, rmeta, rres, diff_index, per_type, per_type_c)
+    _emit_judge_cases(p, keys, names, per_type, per_type_c, judge_cases, judge_meta, cjudge)
+
+
+def _write_want(p, s, v):
+    try:
+        return ("ok", expected_struct(p, s, v))
+    except UnionCount as e:
+        return ("union", e.args[0])
+    except NilDeref as e:
+        return ("nil", e.args[0])
+
+
+def _write_why(p, s, t, pr, want, r, tr, stats):
+    """the property on one observed Write: None if it holds, else what is wrong"""
+    why = None
+    if True:
+        if True:
+            ew = want[1]
             if want[0] == "ok":
                 if r.get("code") != 0:
                     why = "Write failed on a value of the declared type: %s %s" % (r.get("code"), r.get("err") or r.get("panic"))
                 else:
-                    tr = trees[(i, pr)]
                     if pr == "json" and tr.get("code") != 0 and ("Infinit" in str(tr.get("err")) or "NaN" in str(tr.get("err"))):
                         # Apache Thrift's TJSON reader short-reads "-Infinity"/"NaN" at a bufio boundary (library
                         # defect in the test equipment, not in generated code): the case is not judged under JSON
@@ -757,15 +1027,10 @@ def _run_program(ctx, prog, lb, gen_opts, n_values, stats, judge_cases, judge_me
             elif want[0] == "nil":
                 if r.get("code") == 0:
                     why = "nil required struct field was written"
-            if why:
-                rr = dict(rep, proto=pr, observed=r, idl=L.render(p))
-                ctx.violation("C02 oracle (Write, %s): %s" % (pr, why), rr)
-        # judge case: binary Write
-        r = wres[i]["binary"]
-        sub = [1, struct_tok(p, s, v), r.get("code", 103), bytes.fromhex(r.get("out", "") or "")]
-        per_type.setdefault(k, []).append((sub, dict(rep, op="write", observed=r)))
+    return why
 
-    base_results = {}
+
+def _read_oracle(ctx, p, plan, gen_opts, stats, rmeta, rres, diff_index, per_type, per_type_c):
     for j, ((i, tr, info, b, pr), r) in enumerate(zip(rmeta, rres)):
         k, fn, s, v = plan[i]
         t = struct_type_of(fn, s, p)
@@ -803,26 +1068,40 @@ def _run_program(ctx, prog, lb, gen_opts, n_values, stats, judge_cases, judge_me
             if rb.get("code") != r.get("code") or (r.get("code") == 0 and
                                                    go_norm(p, t, L.struct_from_wire(p, s, rb["value"])) != go_norm(p, t, got)):
                 why = "Read under %s differs from Read under binary for the same content" % pr
+        if why and mut in ("none", "unknown", "reorder") and r.get("code") == 4 and has_init_const_default(p, s) and \
+                quirk_union_count_off(p, t, v):
+            known_sig = KNOWN_INIT_CONST     # a union counted with the emitted IsSet (default read before init())
+            stats["known_init_const_default/read/" + pr] += 1
         if why:
             ctx.violation("C02 oracle (Read, %s): %s" % (pr, why), dict(rep, idl=L.render(p)), signature=known_sig)
-        if pr == "binary":
+        if pr in ("binary", "compact"):
             if got is not None:
                 oval = struct_tok(p, s, got)
             else:
                 oval = []
             sub = [2, b, r.get("code", 103), oval, r.get("rest", 0) if r.get("code") == 0 else 0]
-            per_type.setdefault(k, []).append((sub, dict(rep, op="read")))
+            (per_type if pr == "binary" else per_type_c).setdefault(k, []).append((sub, dict(rep, op="read", known_sig=known_sig)))
 
-    for k in sorted(per_type):
-        fn, s = keys[k]
-        self_name = names.get((fn, s["name"])) if not s.get("role") else None
-        if self_name is None:
-            self_name = 100000 + len(judge_cases)
-        subs = per_type[k]
-        for c0 in range(0, len(subs), 40):
-            chunk = subs[c0:c0 + 40]
-            judge_cases.append([env_tok(p, names, s, fn, self_name), [11, self_name], [x[0] for x in chunk]])
-            judge_meta.append([x[1] for x in chunk])
+
+
+def _emit_judge_cases(p, keys, names, per_type, per_type_c, judge_cases, judge_meta, cjudge):
+    targets = [(per_type, judge_cases, judge_meta)]
+    if cjudge is not None:
+        targets.append((per_type_c, cjudge[0], cjudge[1]))
+    for pt, jcases, jmeta in targets:
+        for k in sorted(pt):
+            fn, s = keys[k]
+            self_name = names.get((fn, s["name"])) if not s.get("role") else None
+            if self_name is None:
+                self_name = 100000 + len(jcases)
+            # observations the direct oracle attributed to the known finding are judged one per case, so that a
+            # mismatch there never hides the sub-cases that follow it in a chunk
+            marked = [x for x in pt[k] if x[1].get("known_sig")]
+            subs = [x for x in pt[k] if not x[1].get("known_sig")]
+            chunks = [subs[c0:c0 + 40] for c0 in range(0, len(subs), 40)] + [[x] for x in marked]
+            for chunk in chunks:
+                jcases.append([env_tok(p, names, s, fn, self_name), [11, self_name], [x[0] for x in chunk]])
+                jmeta.append([x[1] for x in chunk])
 
 
 def struct_type_of(fn, s, p):
@@ -862,11 +1141,52 @@ def _first_diff(p, s, got, want):
     return "?"
 
 
+def par_judges(ctx, jobs):
+    """jobs: [(module, cases, name)] -> [verdict lists]; the cases of each job are cut into groups of similar token
+    volume and the groups of all jobs are judged by concurrent coqc processes (at most VERIF_JOBS, at most 4)"""
+    import concurrent.futures
+    import os
+    nproc = max(1, min(4, int(os.environ.get("VERIF_JOBS", "2") or 2)))
+    tasks = []
+    for ji, (module, cases, name) in enumerate(jobs):
+        if not cases:
+            continue
+        per = max(1, nproc // max(1, sum(1 for j in jobs if j[1])))
+        size = [len(repr(c)) for c in cases]
+        target = sum(size) / float(per) + 1
+        groups, cur, acc = [], [], 0
+        for c, z in zip(cases, size):
+            if cur and acc + z > target and len(groups) < per - 1:
+                groups.append(cur)
+                cur, acc = [], 0
+            cur.append(c)
+            acc += z
+        groups.append(cur)
+        for gi, g in enumerate(groups):
+            tasks.append((ji, gi, module, g, "%s%d_" % (name, gi)))
+    out = {}
+    with concurrent.futures.ThreadPoolExecutor(max_workers=nproc) as ex:
+        futs = {ex.submit(vlib.run_judge, ctx.rundir, module, "judge", g, 600000, 2400, nm): (ji, gi)
+                for ji, gi, module, g, nm in tasks}
+        for f in concurrent.futures.as_completed(futs):
+            out[futs[f]] = f.result()
+    res = []
+    for ji, (module, cases, name) in enumerate(jobs):
+        vs = []
+        gi = 0
+        while (ji, gi) in out:
+            vs += out[(ji, gi)]
+            gi += 1
+        res.append(vs)
+    return res
+
+
 def run(ctx, br):
     import collections
     quick = ctx.tier == "quick"
     stats = collections.Counter()
     judge_cases, judge_meta = [], []
+    cjudge_cases, cjudge_meta = [], []
     tag = "c02_%d" % (ctx.seed % 100000)
     probes = run_probes(ctx, tag)
     if quick:
@@ -880,12 +1200,14 @@ def run(ctx, br):
         prog = L.gen_program(ctx.rng, pid, size)
         sizes[size + ("/" + opts if opts else "")] += 1
         before = len(ctx.violations)
-        run_program(ctx, prog, "%s_%d" % (tag, i), opts, nvals, stats, judge_cases, judge_meta)
+        run_program(ctx, prog, "%s_%d" % (tag, i), opts, nvals, stats, judge_cases, judge_meta, (cjudge_cases, cjudge_meta))
         nprog += 1
         if len(ctx.violations) - before > 30:
             break
+    import time
+    t_lab = time.time() - ctx.t0
     # ---- correspondence: the Coq model replays every binary Write and Read
-    verdicts = vlib.run_judge(ctx.rundir, "JThriftBin", "judge", judge_cases, shard=600000) if judge_cases else []
+    verdicts, cverdicts = par_judges(ctx, [("JThriftBin", judge_cases, "j"), ("JThriftCompact", cjudge_cases, "jc")])
     mism = 0
     tagbits = collections.Counter()
     for case, meta, v in zip(judge_cases, judge_meta, verdicts):
@@ -895,7 +1217,7 @@ def run(ctx, br):
             rep = dict(m)
             rep["no_failing_input_found"] = True
             rep["broken"] = "correspondence JThriftBin.judge (Model/ThriftBin.v gwrite/gread disagrees with the generated code on this input)"
-            known = None
+            known = m.get("known_sig")
             ctx.violation("C02 correspondence: model and generated code disagree (%s of %s)" % (m.get("op"), m.get("type")), rep,
                           signature=known)
         else:
@@ -903,8 +1225,29 @@ def run(ctx, br):
                 if v >> b & 1:
                     tagbits[1 << b] += 1
     validated = sum(len(m) for m, v in zip(judge_meta, verdicts) if v >= 0)
+    t_jbin = time.time() - ctx.t0 - t_lab      # both judges (they run concurrently)
+    # ---- correspondence, compact protocol: every compact Write (byte-exact) and Read replayed on Model/ThriftCompact.v
+    cmism = 0
+    ctagbits = collections.Counter()
+    for case, meta, v in zip(cjudge_cases, cjudge_meta, cverdicts):
+        if v < 0:
+            cmism += 1
+            m = meta[-v - 1]
+            rep = dict(m)
+            rep["no_failing_input_found"] = True
+            rep["broken"] = "correspondence JThriftCompact.judge (Model/ThriftCompact.v gcwrite/gcread disagrees with the generated " \
+                            "code over TCompactProtocol on this input; theorems c02_compact_*)"
+            ctx.violation("C02 correspondence (compact): model and generated code disagree (%s of %s)" % (m.get("op"), m.get("type")), rep,
+                          signature=m.get("known_sig"))
+        else:
+            for b in range(10):
+                if v >> b & 1:
+                    ctagbits[1 << b] += 1
+    cvalidated = sum(len(m) for m, v in zip(cjudge_meta, cverdicts) if v >= 0)
     ctx.assumptions += [
-        "TCompact / TJSON codecs are Apache Thrift's: exercised differentially through a schema-less reader/writer, only TBinary has a Coq specification",
+        "TJSON codec is Apache Thrift's: exercised differentially through a schema-less reader/writer; TBinary and TCompact have Coq "
+        "specifications (Model/ThriftBin.v, Model/ThriftCompact.v) compared byte-exact with the generated code's output",
+        "TCompact: sizes above Thrift's 100 MB default message limit, hostile container sizes and I/O errors other than end of input are not modelled",
         "set/map order is Go's iteration order: compared up to permutation; map keys on the wire are distinct; strings are valid UTF-8; "
         "doubles compared by bit pattern (all NaNs alike under TJSON); IsSet of an optional double with a default uses Go's ==",
         "a nil slice/map/binary in a required or default field is the same value as an empty one",
@@ -918,10 +1261,16 @@ def run(ctx, br):
         "programs": nprog,
         "program_sizes": dict(sizes),
         "probes": probes,
-        "traces_validated_against_impl": validated,
+        "traces_validated_against_impl": validated + cvalidated,
+        "traces_validated_binary": validated,
+        "traces_validated_compact": cvalidated,
         "judge_cases": len(judge_cases),
         "judge_mismatches": mism,
         "model_branch_hits": {str(k): v for k, v in sorted(tagbits.items())},
+        "phase_wall_s": {"build_and_lab": round(t_lab, 1), "judges_binary_and_compact_concurrent": round(t_jbin, 1)},
+        "compact_judge_cases": len(cjudge_cases),
+        "compact_judge_mismatches": cmism,
+        "compact_model_branch_hits": {str(k): v for k, v in sorted(ctagbits.items())},
         "input_histogram": dict(stats),
         "samples": [dict((k, (str(v)[:300])) for k, v in m[0].items() if k != "idl") for m in judge_meta[:3]],
     }
